@@ -62,10 +62,12 @@ pub struct Log {
     pub digest: Digest,
     pub steps: u64,
     pub record: Option<Vec<(u8, u64, u64)>>,
+    /// how often each oracle (by check number) was evaluated and held
+    pub ok: [u32; 24],
 }
 impl Log {
     pub fn new(record: bool) -> Log {
-        Log { digest: Digest::default(), steps: 0, record: if record { Some(Vec::new()) } else { None } }
+        Log { digest: Digest::default(), steps: 0, record: if record { Some(Vec::new()) } else { None }, ok: [0; 24] }
     }
     #[inline]
     pub fn ev(&mut self, kind: u8, a: u64, b: u64) {
@@ -74,6 +76,9 @@ impl Log {
         self.digest.u64(b);
         if kind < ev::REC_WRITTEN {
             self.steps += 1;
+        }
+        if kind == ev::CHECK_OK && (a as usize) < self.ok.len() {
+            self.ok[a as usize] += 1;
         }
         if let Some(r) = self.record.as_mut() {
             if r.len() < 20_000 {
